@@ -1,7 +1,8 @@
 (* The registry of modelled plugins (entry-point name -> Gallina function). *)
 From Coq Require Import List NArith ZArith Bool String.
 From Bandit Require Import Base.PyStr Ast.Node Engine.Types Engine.Scan
-     Plugins.Shell Plugins.Crypto Plugins.Secrets Plugins.Inject Plugins.Misc.
+     Plugins.Shell Plugins.Crypto Plugins.Secrets Plugins.Inject Plugins.Misc Plugins.Trojan Gen.Constants.
 Import ListNotations.
 Definition all_plugins : list plugin :=
-  shell_plugins ++ crypto_plugins ++ secrets_plugins ++ inject_plugins ++ misc_plugins.
+  shell_plugins ++ crypto_plugins ++ secrets_plugins ++ inject_plugins ++ misc_plugins
+  ++ [Plugin (s2p "trojansource") (trojansource BIDI_CHARACTERS)].
